@@ -334,14 +334,10 @@ def knownRacy : List Known := [
    "t.tProtocol.Transport().Close() outside any lock"⟩,
   ⟨"c14:race:binary_proto.go:tBinaryProto.Pack|tBinaryProto.Unpack", "tBinaryProto.tProtocol", "tBinaryProto.Unpack", "R", true, ["thrift"],
    "t.tProtocol.Transport().Close() outside any lock"⟩,
-  ⟨"c14:race:rw_counter.go:WriteCounter|WriteCounter", "tBinaryProto.writeCount", "tBinaryProto.binaryUnpack", "W", true, ["thrift"],
-   "binaryUnpack zeroes the WRITE counter (under unpackLock) while Pack counts into it under packLock"⟩,
   ⟨"c14:race:struct_proto.go:tStructProto.Pack|tStructProto.Unpack", "tStructProto.tProtocol", "tStructProto.structUnpack", "R", false, [],
    "same defect in the struct protocol (not exercised by a scenario)"⟩,
   ⟨"c14:race:struct_proto.go:tStructProto.Pack|tStructProto.Unpack", "tStructProto.tProtocol", "tStructProto.Pack", "R", false, [], "same defect in the struct protocol"⟩,
   ⟨"c14:race:struct_proto.go:tStructProto.Pack|tStructProto.Unpack", "tStructProto.tProtocol", "tStructProto.Unpack", "R", false, [], "same defect in the struct protocol"⟩,
-  ⟨"c14:race:rw_counter.go:WriteCounter|WriteCounter", "tStructProto.writeCount", "tStructProto.structUnpack", "W", false, [],
-   "structUnpack zeroes the write counter (not exercised by a scenario)"⟩,
   ⟨"c14:race:socket.go:socket.Conn", "socket.Conn", "session.RemoteAddr", "R", true, ["redial"],
    "promoted net.Conn method through the embedded socket.Conn without socket.mu against socket.Reset during redial"⟩,
   ⟨"c14:race:socket.go:socket.Conn", "socket.Conn", "session.LocalAddr", "R", true, ["redial"], "as above"⟩,
